@@ -24,6 +24,7 @@ def main():
         print("unknown or unclaimed property %s" % pid, file=sys.stderr)
         return 2
     t0 = time.time()
+    os.environ["VERIF_TIER"] = tier     # rules with a bounded exploration go deeper in the thorough tier
     try:
         configs = ["default"] + (["tracing"] if tier == "thorough" else [])
         per_config = {}
